@@ -94,6 +94,23 @@ def rule_codec(ctx):
         if [getattr(kw.get(k), "label", None) for k in ("value", "size", "format")] != ["<b64>", "<size>", "<fmt>"]:
             ok = False
     ctx.check(ok, "C08.CODEC", f_.short, "oneBLOB(value=base64, size=len, format) of the element's own value object", "a BLOB producer does not send its value's base64 text together with that value's size and format", fi=f_, text=f"producer:{f_.cls.module.name}")
+    # ... also for the degenerate payloads: real values.BLOB objects of length 0 and 1 with a non-empty format
+    for payload in (b"", b"x"):
+        def run_prod0(it: Interp, payload=payload):
+            drivers = build_drivers(it, p)
+            el = {o.label: o for o in _reachable_objs(drivers["DEVA"])}.get("el:DEVA.V4.A")
+            el.attrs[valf] = Obj(vb, {"binary": Const(payload), "format": Const(".fits"), "__closed__": Const(True)}, label="<blob0>")
+            return it.run_function(Fn(f_, el), [], {})
+
+        paths = explore(p, run_prod0, {"inline": lambda fi, node: (fi.kind == "getter" and fi.module.name.startswith("indi.device.properties")) or fi.cls is vb})
+        ok0 = len(paths) == 1 and paths[0].outcome == "return"
+        got0 = None
+        if ok0:
+            v = paths[0].value
+            kw = dict(v.args[2]) if isinstance(v, Term) and v.op == "call" else {}
+            got0 = {k: show(kw.get(k)) for k in ("size", "format")}
+            ok0 = got0 == {"size": repr(len(payload)), "format": "'.fits'"}
+        ctx.check(ok0, "C08.CODEC", f"{f_.short}[{len(payload)}-byte payload]", "format and length of the value object are sent", f"a {len(payload)}-byte BLOB with format '.fits' is published as {got0}: format or length of the payload is lost", fi=f_, text=f"producer-degenerate:{len(payload)}", witness=f"BLOB({payload!r}, '.fits')")
     # consumers
     def child():
         return Obj(p.cls("indi.message.one_parts.OneBLOB"), {"name": Const("A"), "value": Obj(None, label="<text>"), "format": Obj(None, label="<format>"), "size": Obj(None, label="<size>"), "__closed__": Const(True)}, label="child")
